@@ -317,23 +317,26 @@ def duration_measure(ctx: Ctx) -> None:
     fi = p.func(q)
     ctx.analysed(fi)
     lp = message_loop(fi.node)
+    # the accumulator by role: the local the returned quotient is made of
+    rets0 = [r for r in walk_local(fi.node) if isinstance(r, ast.Return) and r.value is not None]
     acc = None
-    if lp is not None:
-        for n in ast.walk(lp):
-            if isinstance(n, ast.AugAssign) and isinstance(n.op, ast.Add) and isinstance(n.target, ast.Name) and isinstance(n.value, ast.Attribute) \
-                    and n.value.attr == "time":
-                acc = n.target.id
+    if len(rets0) == 1:
+        cands = [x.id for x in ast.walk(rets0[0].value) if isinstance(x, ast.Name) and x.id not in p.settings and x.id not in ("int", "float", "round")]
+        acc = cands[0] if len(set(cands)) == 1 else None
     if lp is None or acc is None:
-        ctx.undetermined("MEASURE", f"{q}: measuring loop", "no `x += msg.time` loop over the messages: idiom not judged")
+        ctx.undetermined("MEASURE", f"{q}: measuring loop", "no loop over the messages feeding one returned local: idiom not judged")
         return
     for T in p.enum_order("MessageType"):
         tc = TypeCase(p, fi, {lp.target.id}, T)
         exits = tc.run_body(lp.body)
-        rng = events_matching(exits, lambda e: e[0] == "aug" and e[1] == acc, kinds=("end", "continue", "break"))
+        rng = events_matching(exits, lambda e: e[0] == "aug" and e[1] == acc and e[2] == "Add" and str(e[3]).endswith(".time"), kinds=("end", "continue", "break"))
+        oth = events_matching(exits, lambda e: (e[0] == "aug" and e[1] == acc and not (e[2] == "Add" and str(e[3]).endswith(".time"))) or (e[0] == "set" and e[1] == acc),
+                              kinds=("end", "continue", "break"))
         kinds_ = {k for k, _ in exits}
         want = (1, 1) if T == "WAIT" else (0, 0)
-        ctx.check((rng == want or (rng is None and want == (0, 0))) and "break" not in kinds_, "MEASURE", f"{q}: {T} contributes {rng} to the duration", function=q,
-                  construct=f"sequence duration counts {T} messages wrongly", message=f"{rng}, expected {want}; exits {sorted(kinds_)}", file=fi.file, node=lp)
+        ctx.check((rng or (0, 0)) == want and (oth or (0, 0)) == (0, 0) and "break" not in kinds_, "MEASURE", f"{q}: {T} contributes {rng} to the duration", function=q,
+                  construct=f"sequence duration counts {T} messages wrongly", message=f"adds of its time {rng}, expected {want}; other changes of the sum {oth}; exits {sorted(kinds_)}",
+                  file=fi.file, node=lp)
     init = [s_ for s_ in fi.node.body if isinstance(s_, ast.Assign) and any(isinstance(t, ast.Name) and t.id == acc for t in s_.targets)]
     ctx.check(len(init) == 1 and isinstance(init[0].value, ast.Constant) and init[0].value.value == 0 and not isinstance(init[0].value.value, bool), "MEASURE",
               f"{q}: the sum starts at 0", function=q, construct="sequence duration does not start at 0", message="", file=fi.file, node=fi.node)
